@@ -26,9 +26,14 @@ import lxml.etree as LX  # noqa: E402
 
 PROP = 'C01'
 NS = {'p': 'urn:p'}
-URI2CODE = {'': '', 'urn:p': 'P'}
+# lxml trees with namespace declarations at depth: extra prefix q, default namespace (prefix d in
+# expressions), prefix p rebound to a second URI (code R: reachable by wildcards only)
+NS_EXT = {'p': 'urn:p', 'q': 'urn:q', 'd': 'urn:d'}
+URI2CODE = {'': '', 'urn:p': 'P', 'urn:q': 'Q', 'urn:d': 'D', 'urn:p2': 'R'}
 CODE2URI = {v: k for k, v in URI2CODE.items()}
-CODE2PFX = {'': '', 'P': 'p:'}
+CODE2PFX = {'': '', 'P': 'p:', 'Q': 'q:', 'D': 'd:'}
+XML_NS = 'http://www.w3.org/XML/1998/namespace'
+ALL_NS_URIS = set(URI2CODE) | {XML_NS}
 
 AXES = ['self', 'child', 'descendant', 'descendant-or-self', 'parent', 'ancestor', 'ancestor-or-self',
         'following-sibling', 'preceding-sibling', 'following', 'preceding', 'attribute', 'namespace']
@@ -47,8 +52,10 @@ def qn(ucode: str, local: str) -> str:
 class Built:
     """A concrete ElementTree/lxml tree for a case + the pre-order array + index maps."""
 
-    def __init__(self, tree, pre, post, lib: str, mode: str):
+    def __init__(self, tree, pre, post, lib: str, mode: str, ns=None):
         self.lib, self.mode = lib, mode
+        self.ns = dict(ns or NS)          # `namespaces=` argument (parser prefixes; ElementTree namespace nodes)
+        self.nsuri: dict = {}             # (element index, prefix) -> URI of that namespace node
         self.keep = []            # keeps lxml proxies alive (identity!)
         self.recs: list[list] = []   # [kind, ucode, name, parent, size]
         self.keyidx: dict = {}
@@ -120,8 +127,13 @@ class Built:
         return LX.Comment(c[1]) if c[0] == 'C' else LX.ProcessingInstruction(c[1], c[2])
 
     def _mk_lx(self, n, parent):
+        decl = {(k or None): CODE2URI[v] for k, v in (n[5] if len(n) > 5 else {}).items()}
         if parent is None:
-            e = LX.Element(qn(n[1], n[2]), nsmap=NS)
+            rootmap = dict(NS)
+            rootmap.update(decl)
+            e = LX.Element(qn(n[1], n[2]), nsmap=rootmap)
+        elif decl:
+            e = LX.SubElement(parent, qn(n[1], n[2]), nsmap=decl)
         else:
             e = LX.SubElement(parent, qn(n[1], n[2]))
         self.keep.append(e)
@@ -165,15 +177,20 @@ class Built:
         # namespace nodes: 'xml' first, then the in-scope prefixes (lxml: element's nsmap;
         # ElementTree: the `namespaces` argument of the context)
         if self.lib == 'lxml':
-            pfx = [k for k in obj.nsmap if k is not None and k != 'xml']
+            nsmap = obj.nsmap
+            pfx = [k for k in nsmap if k != 'xml']          # None = default namespace
         else:
-            pfx = [k for k in NS if k != 'xml']
-        self.xtoks += ['E', n[1], n[2], str(1 + len(pfx)), 'xml'] + pfx + [str(len(n[3]))]
+            nsmap = self.ns
+            pfx = [k for k in self.ns if k != 'xml']
+        self.nsuri[(i, 'xml')] = XML_NS
+        for k in pfx:
+            self.nsuri[(i, k)] = nsmap[k]
+        self.xtoks += ['E', n[1], n[2], str(1 + len(pfx)), 'xml'] + [k or '' for k in pfx] + [str(len(n[3]))]
         for u, l, v in n[3]:
             self.xtoks += [u, l]
         self.xtoks.append(str(len(n[4])))
         for p in ['xml'] + pfx:
-            self._rec('N', '', p, i, ('N', i, p))
+            self._rec('N', '', p or '', i, ('N', i, p))
         for u, l, v in n[3]:
             self._rec('A', u, l, i, ('A', i, qn(u, l)))
         kids = list(obj)
@@ -356,7 +373,103 @@ def gen_tree(rng, max_depth=6, max_elems=10):
     return tree, pre, post
 
 
+def gen_tree_deep(rng, max_depth=5, max_elems=8):
+    """lxml trees with namespace declarations at depth (seeded change m2): inner elements declaring
+    prefixes their own tag does not use, a default namespace, prefix p rebound; element and attribute
+    names only use bindings that are in scope (so that lxml invents no ns0 prefixes)"""
+    count = [0]
+    uniq = [0]
+
+    def u(prefix):
+        uniq[0] += 1
+        return f'{prefix}{uniq[0]}'
+
+    def elem(depth, scope):
+        count[0] += 1
+        decl = {}
+        if depth == 1:
+            if rng.random() < 0.5:
+                decl[''] = 'D'
+        r = rng.random()
+        if r < 0.3:
+            decl['q'] = 'Q'
+        elif r < 0.4:
+            decl['p'] = 'R'
+        elif r < 0.5 and depth > 1:
+            decl[''] = 'D'
+        elif r < 0.56:
+            decl['q'] = 'Q'
+            decl['p'] = 'R'
+        scope = dict(scope)
+        scope.update(decl)
+        codes = sorted(set(scope.values()))
+        # tag: bias to prefixes / default namespace already known above (the cache-hit path of m2)
+        ucode = rng.choice(codes + [scope.get('', '')] * 2 + [''] * 1) if rng.random() < 0.75 else ''
+        if ucode == '' and '' in scope:
+            ucode = scope['']          # unprefixed tag inside a default-namespace scope
+        acodes = [v for k, v in scope.items() if k] + ['']
+        attrs = []
+        for al in rng.sample(['k', 'j', 'x'], rng.choice([0, 1, 1, 2])):
+            attrs.append([rng.choice(acodes + ['']), al, u('v')])
+        seen, attrs2 = set(), []
+        for a in attrs:
+            if (a[0], a[1]) not in seen:
+                seen.add((a[0], a[1]))
+                attrs2.append(a)
+        kids = []
+        nk = 0 if depth >= max_depth else rng.choice([0, 1, 2, 2, 3])
+        for _ in range(nk):
+            if count[0] >= max_elems:
+                break
+            if rng.random() < 0.3 and (not kids or kids[-1][0] != 'T'):
+                kids.append(['T', u('t')])
+            kids.append(elem(depth + 1, scope))
+        if rng.random() < 0.4 and not (kids and kids[-1][0] == 'T'):
+            kids.append(['T', u('t')] if rng.random() < 0.7 else ['C', u('c')])
+        return ['E', ucode, rng.choice(NAMES), attrs2, kids, decl]
+
+    tree = elem(1, {'p': 'P'})
+    pre = [['C', u('c')]] if rng.random() < 0.3 else []
+    post = [['P', 'pj', u('d')]] if rng.random() < 0.3 else []
+    return tree, pre, post
+
+
+def gen_mix(rng):
+    """results mixing attribute / namespace nodes with child nodes of the same elements"""
+    head = rng.choice([['dr', ['s', 'child', 'any', True]], ['dr', ['s', 'child', 'node', True]],
+                       ['dr', ['s', 'attribute', 'any', True]], ['dr', ['s', 'child', rng.choice([f'q:{rng.choice(_TEST_CODES)}:x', f'q:{rng.choice(_TEST_CODES)}:a', 'q::x',
+                                                            f'ns:{rng.choice(_TEST_CODES)}']), True]]])
+    parts = [['sl', head, ['s', 'attribute', 'any', True]], ['sl', head, ['s', 'child', 'node', True]],
+             ['sl', head, ['s', 'namespace', 'any', False]], ['dr', ['s', 'child', 'text', True]],
+             ['dr', ['s', 'attribute', 'any', True]], ['dr', ['s', 'child', 'node', True]],
+             ['sl', ['dr', ['s', 'attribute', 'any', True]], ['s', 'ancestor-or-self', 'node', False]],
+             ['sl', ['dr', ['s', 'namespace', 'any', False]], ['s', 'ancestor-or-self', 'node', False]],
+             ['sl', head, ['s', 'descendant-or-self', 'node', False]]]
+    r = rng.random()
+    if r < 0.25:
+        return rng.choice(parts[6:8])
+    e = ['un', rng.choice(parts), rng.choice(parts)]
+    if r < 0.5:
+        e = ['un', e, rng.choice(parts)]
+    if r > 0.85:
+        e = ['p', ['g', e], rng.choice([['n', 2], ['last'], ['cmp', 'gt', ['pos'], ['n', 2]]])]
+    return e
+
+
+_TEST_CODES = ['P']     # namespace codes usable by generated name tests (extended for deep-namespace cases)
+
+
 def gen_test(rng, axis) -> str:
+    t = _gen_test(rng, axis)
+    if 'P' in t.split(':')[1:2] and len(_TEST_CODES) > 1:
+        code = rng.choice(_TEST_CODES)
+        parts = t.split(':')
+        parts[1] = code
+        t = ':'.join(parts)
+    return t
+
+
+def _gen_test(rng, axis) -> str:
     if axis == 'attribute':
         return rng.choice(['any', 'any', 'q::k', 'q::j', 'q:P:k', 'node', 'ns:P', 'q::x'])
     if axis == 'namespace':
@@ -384,7 +497,52 @@ def gen_union(rng, depth, inner=False):
     return e
 
 
+def gen_simple_rel(rng):
+    """short relative paths that are often non-empty: operands of boolean combinations"""
+    r = rng.random()
+    if r < 0.45:
+        return ['s', 'child', rng.choice(['any', 'q::x', 'q::y', 'q::a', 'node', 'text']), True]
+    if r < 0.6:
+        return ['s', 'attribute', rng.choice(['any', 'q::k', 'q::j']), True]
+    if r < 0.68:
+        return ['u']
+    if r < 0.78:
+        return ['ds', ['c'], ['s', 'child', rng.choice(['any', 'q::x', 'q::y']), True]]
+    if r < 0.88:
+        return ['s', rng.choice(['following-sibling', 'preceding-sibling', 'parent', 'ancestor', 'descendant', 'following']),
+                rng.choice(['any', 'q::x', 'q::y', 'node']), False]
+    if r < 0.94:
+        return ['sl', ['s', 'child', 'any', True], ['s', 'child', rng.choice(['any', 'q::x', 'q::y']), True]]
+    return ['p', ['s', 'child', rng.choice(['any', 'q::x']), True], gen_simple_rel(rng)]
+
+
+def gen_bool_operand(rng, depth):
+    r = rng.random()
+    if r < 0.4:
+        return gen_simple_rel(rng)
+    if r < 0.65:
+        return ['not', gen_simple_rel(rng)]
+    if r < 0.8:
+        return ['cmp', rng.choice(['gt', 'eq', 'ge', 'lt']), ['count', gen_simple_rel(rng)], ['n', rng.choice([0, 0, 1, 2])]]
+    if r < 0.87:
+        return ['cmp', rng.choice(list(CMPS)), ['pos'], rng.choice([['n', 1], ['n', 2], ['last']])]
+    if r < 0.93 and depth > 0:
+        return ['g', gen_bool(rng, depth - 1)]
+    if r < 0.97:
+        return ['not', ['g', gen_bool(rng, depth - 1)]] if depth > 0 else ['not', gen_simple_rel(rng)]
+    return ['g', ['un', gen_simple_rel(rng), gen_simple_rel(rng)]]
+
+
+def gen_bool(rng, depth):
+    """`and` / `or` whose operands are relative paths, not(path), count(path) comparisons, nested
+    predicates - on both sides, in both orders (operand contexts: seeded change m1)"""
+    return [rng.choice(['and', 'or', 'or']), gen_bool_operand(rng, depth), gen_bool_operand(rng, depth)]
+
+
 def gen_pred(rng, depth):
+    r = rng.random()
+    if r < 0.16:
+        return gen_bool(rng, 1)
     r = rng.random()
     if r < 0.3:
         return ['n', rng.choice([1, 1, 2, 2, 3])]
@@ -489,7 +647,7 @@ class ImplTree:
         self.b, self.xn, self.XPathContext = b, xn, XPathContext
         raw, frag = b.ep_root()
         self.raw, self.frag = raw, frag
-        self.node_tree = get_node_tree(raw, namespaces=dict(NS), fragment=frag)
+        self.node_tree = get_node_tree(raw, namespaces=dict(b.ns), fragment=frag)
         self.ctxnode: dict[int, object] = {}
         for n in self.node_tree.iter():
             i = b.keyidx.get(b.key_of(n, xn))
@@ -509,7 +667,7 @@ class ImplTree:
 
     def select_tok(self, tok, i: int) -> str:
         try:
-            ctx = self.XPathContext(self.node_tree, namespaces=dict(NS), fragment=self.frag, item=self.ctxnode[i])
+            ctx = self.XPathContext(self.node_tree, namespaces=dict(self.b.ns), fragment=self.frag, item=self.ctxnode[i])
             return self.indices(list(tok.select(ctx)))
         except Exception as e:
             return err_code(e)
@@ -527,8 +685,9 @@ class ImplTree:
             obj = self.b.idxobj[p]
             return ('str', obj.get(qn(u, nm)))
         if k == 'N':
-            uri = 'http://www.w3.org/XML/1998/namespace' if nm == 'xml' else NS[nm]
-            return ('ns', nm, uri) if version == '1.0' else ('nsuri', uri)
+            pfx = next(key[2] for key, j in self.b.keyidx.items() if j == i)
+            uri = self.b.nsuri[(p, pfx)]
+            return ('ns', pfx, uri) if version == '1.0' else ('nsuri', uri)
         return ('?',)
 
     def public_labels(self, res, version):
@@ -547,7 +706,7 @@ class ImplTree:
             else:
                 out.append(('other', repr(r)[:30]))
         if version != '1.0':
-            out = [('nsuri', x[1]) if x[0] == 'str' and x[1] in (list(NS.values()) + ['http://www.w3.org/XML/1998/namespace']) else x
+            out = [('nsuri', x[1]) if x[0] == 'str' and x[1] in ALL_NS_URIS else x
                    for x in out]
         return out
 
@@ -565,7 +724,7 @@ def lxml_result(b: Built, path: str, i: int):
     if obj is None:
         return None
     try:
-        res = obj.xpath(path, namespaces=NS)
+        res = obj.xpath(path, namespaces=b.ns)
     except Exception as e:
         return f'LXERR:{type(e).__name__}'
     if not isinstance(res, list):
@@ -628,7 +787,7 @@ def choose_ctx(b: 'Built', c: dict) -> list[int]:
 
 def case_json(c):
     return {'tree': c['tree'], 'pre': c['pre'], 'post': c['post'], 'expr': c['expr'], 'lib': c['lib'],
-            'mode': c['mode'], 'xpath': render(c['expr'])}
+            'mode': c['mode'], 'ns': c.get('ns'), 'xpath': render(c['expr'])}
 
 
 def compare(run: Run, cases: list[dict], full: bool = True, lxml_check: bool = True) -> None:
@@ -637,7 +796,7 @@ def compare(run: Run, cases: list[dict], full: bool = True, lxml_check: bool = T
     builts = []
     lines = []
     for c in cases:
-        b = Built(c['tree'], c['pre'], c['post'], c['lib'], c['mode'])
+        b = Built(c['tree'], c['pre'], c['post'], c['lib'], c['mode'], c.get('ns'))
         builts.append(b)
         c['ctx'] = choose_ctx(b, c)
         lines.append(f"M={c['mode']} T={b.tree_field()} X={'~'.join(b.xtoks)} E={'~'.join(polish(c['expr']))} "
@@ -668,10 +827,20 @@ def compare(run: Run, cases: list[dict], full: bool = True, lxml_check: bool = T
         st.count(f'preds={count_kind(c["expr"], ("p",))}')
         try:
             it = ImplTree(b)
-            toks = {v: cls(namespaces=dict(NS)).parse(path) for v, cls in P.items()}
+            toks = {v: cls(namespaces=dict(b.ns)).parse(path) for v, cls in P.items()}
         except Exception as e:
             run.disagree(Disagreement(cj, err_code(e), model=per[min(per)][0], spec=per[min(per)][1],
                                       what='parse-or-tree-build', site='parser'))
+            continue
+        # assumption of the model made a checked fact: node positions (the sort key of '/', '//', '|')
+        # increase strictly along document order = array index order
+        pos = sorted((i, n.position) for i, n in it.ctxnode.items())
+        bad = [(i, p1, j, p2) for (i, p1), (j, p2) in zip(pos, pos[1:]) if not p1 < p2]
+        st.count('positions-checked')
+        if bad:
+            run.disagree(Disagreement(dict(cj, first_inversions=bad[:4]), 'positions:' + str([p for _, p in pos])[:200], None,
+                                      'strictly increasing in document order', what='node-positions-vs-document-order',
+                                      site='tree_builders.py / xpath_nodes.py positions'))
             continue
         trees = {v: t.tree for v, t in toks.items()}
         st.count('token-tree-compared')
@@ -740,16 +909,16 @@ def self_check_public(run, it: ImplTree, b: Built, cji, path, i, impl, tags):
         return
     for v in ('1.0', '3.1'):
         want = [it.label(j, v) for j in ids if not (b.mode == 'dummy' and j == 0)]
-        kw = dict(namespaces=dict(NS), parser=P[v], fragment=it.frag)
+        kw = dict(namespaces=dict(b.ns), parser=P[v], fragment=it.frag)
         if item is not None:
             kw['item'] = item
         try:
             r1 = it.public_labels(elementpath.select(it.raw, path, **kw), v)
             r2 = it.public_labels(list(elementpath.iter_select(it.raw, path, **kw)), v)
-            kw2 = dict(fragment=it.frag, namespaces=dict(NS))
+            kw2 = dict(fragment=it.frag, namespaces=dict(b.ns))
             if item is not None:
                 kw2['item'] = item
-            r3 = it.public_labels(elementpath.Selector(path, namespaces=dict(NS), parser=P[v]).select(it.raw, **kw2), v)
+            r3 = it.public_labels(elementpath.Selector(path, namespaces=dict(b.ns), parser=P[v]).select(it.raw, **kw2), v)
         except Exception as e:
             r1 = r2 = r3 = err_code(e)
         run.stats.count('public-api-checked')
@@ -794,12 +963,12 @@ def state_correspond(run: Run, cases: list[dict]) -> None:
     """context.item / context.axis at every yield of the real iterators, after exhaustion and after an
     early close, against the statement-level model of EPV/Model/AxesState.lean"""
     st = run.stats
-    builts = [Built(c['tree'], c['pre'], c['post'], c['lib'], c['mode']) for c in cases]
+    builts = [Built(c['tree'], c['pre'], c['post'], c['lib'], c['mode'], c.get('ns')) for c in cases]
     lines = [f"M={c['mode']} T={b.tree_field()} OP=state C=*" for c, b in zip(cases, builts)]
     answers = drive(run, lines)
     P = parsers()
     for c, b, ans in zip(cases, builts, answers):
-        cj = {'tree': c['tree'], 'pre': c['pre'], 'post': c['post'], 'lib': c['lib'], 'mode': c['mode']}
+        cj = {'tree': c['tree'], 'pre': c['pre'], 'post': c['post'], 'lib': c['lib'], 'mode': c['mode'], 'ns': c.get('ns')}
         if not ans.startswith('wf=1 S='):
             run.disagree(Disagreement(cj, 'driver:' + ans[:80], what='protocol-state'))
             continue
@@ -808,21 +977,21 @@ def state_correspond(run: Run, cases: list[dict]) -> None:
             i, ax, tr = item.split(':')
             model[(int(i), ax)] = tr
         it = ImplTree(b)
-        it.ns_token = P['1.0'](namespaces=dict(NS)).parse('namespace::*')
+        it.ns_token = P['1.0'](namespaces=dict(b.ns)).parse('namespace::*')
 
         def idx(n):
             return b.keyidx.get(b.key_of(n, it.xn), -1)
         for i in sorted(it.ctxnode):
             for ax in STATE_AXES:
                 try:
-                    ctx = it.XPathContext(it.node_tree, namespaces=dict(NS), fragment=it.frag, item=it.ctxnode[i])
+                    ctx = it.XPathContext(it.node_tree, namespaces=dict(b.ns), fragment=it.frag, item=it.ctxnode[i])
                     ys = []
                     for v in real_generator(it, ctx, ax):
                         ys.append(f'{idx(v)},{idx(ctx.item)},{ctx.axis or "-"}')
                     real = ';'.join(ys) + f'/{idx(ctx.item)},{ctx.axis or "-"}'
                     # early close after the first yield: state stays as at that yield
                     if ys:
-                        ctx2 = it.XPathContext(it.node_tree, namespaces=dict(NS), fragment=it.frag, item=it.ctxnode[i])
+                        ctx2 = it.XPathContext(it.node_tree, namespaces=dict(b.ns), fragment=it.frag, item=it.ctxnode[i])
                         g = real_generator(it, ctx2, ax)
                         next(g)
                         g.close()
@@ -838,6 +1007,135 @@ def state_correspond(run: Run, cases: list[dict]) -> None:
                 if real != model[(i, ax)]:
                     run.disagree(Disagreement(dict(cj, ctx=i, axis=ax), real, model[(i, ax)], None,
                                               what='iterator-state-trace', site='xpath_context.py iterators'))
+
+
+# ===================================================================== call histories (public API)
+def subst_codes(e, mp):
+    """resolve the prefix placeholders of an expression (codes 'P' = prefix p, 'Q' = prefix q) by a binding"""
+    if e[0] == 's':
+        parts = e[2].split(':')
+        if parts[0] in ('q', 'ns') and parts[1] in mp:
+            parts[1] = mp[parts[1]]
+        return ['s', e[1], ':'.join(parts)] + e[3:]
+    return [x if not isinstance(x, list) else subst_codes(x, mp) for x in e]
+
+
+def history_paths():
+  return [
+    ['dr', S('child', 'q:P:x', True)], ['dr', S('child', 'ns:P', True)], ['dr', S('attribute', 'q:P:k', True)],
+    ['sl', ['dr', S('child', 'q:P:x', True)], S('attribute', 'any', True)],
+    ['dr', ['p', S('child', 'any', True), S('child', 'q:P:y', True)]],
+    ['un', ['dr', S('child', 'q:P:x', True)], ['dr', S('child', 'q:P:y', True)]],
+    ['sl', ['dr', S('child', 'q:P:y', True)], ['u']],
+    ['dr', ['p', S('child', 'ns:P', True), ['not', S('attribute', 'q:P:k', True)]]],
+    ['ds', ['dr', S('child', 'q:P:x', True)], S('child', 'q:Q:x', True)],
+    ['p', ['g', ['dr', S('child', 'ns:P', True)]], ['last']],
+    ['sl', ['dr', S('child', 'q:Q:x', True)], S('following-sibling', 'ns:P')],
+  ]
+
+
+BINDINGS = [{'p': 'urn:p'}, {'p': 'urn:q'}, {'p': 'urn:p', 'q': 'urn:q'}, {'p': 'urn:q', 'q': 'urn:p'},
+            {'p': 'urn:d', 'q': 'urn:q'}]
+
+
+def recode_tree(rng, t):
+    """spread the element / attribute names over the namespaces urn:p, urn:q (and none)"""
+    import copy
+    t = copy.deepcopy(t)
+
+    def go(e):
+        if rng.random() < 0.55:
+            e[1] = rng.choice(['P', 'Q'])
+        for a in e[3]:
+            a[0] = rng.choice(['', '', 'P', 'Q'])
+        seen, attrs = set(), []
+        for a in e[3]:
+            if (a[0], a[1]) not in seen:
+                seen.add((a[0], a[1]))
+                attrs.append(a)
+        e[3] = attrs
+        for c in e[4]:
+            if c[0] == 'E':
+                go(c)
+    go(t)
+    if len(t) < 6:
+        t.append({})
+    t[5] = dict(t[5], q='Q')          # lxml: q declared at the root as well
+    return t
+
+
+def history_correspond(run: Run) -> None:
+    """sequences of plain module-level select() / iter_select() calls and Selector objects in ONE process:
+    same path string with the same prefixes bound to different URIs, different parser classes, different
+    documents.  Every step is compared with the model, a pure function of (tree, expression, bindings)."""
+    import elementpath
+    rng = run.rng
+    st = run.stats
+    P = parsers()
+    nh = run.scale(30, 250)
+    steps = []
+    for h in range(nh):
+        docs = []
+        for _ in range(2):
+            tree, pre, post = gen_tree(rng, max_depth=4, max_elems=7)
+            docs.append((recode_tree(rng, tree), rng.choice(COMBOS)))
+        paths = rng.sample(history_paths(), 3)
+        if rng.random() < 0.5:
+            _TEST_CODES[:] = ['P', 'P', 'Q']
+            extra = gen_path(rng, rng.choice([1, 2]), depth=1)
+            _TEST_CODES[:] = ['P']
+            if not (axes_of(extra) & {'namespace'}):
+                paths.append(extra)
+        versions = rng.sample(['1.0', '2.0', '3.0', '3.1'], 2)
+        for k in range(rng.randint(6, 10)):
+            binding = rng.choice(BINDINGS[:2] if rng.random() < 0.6 else BINDINGS)
+            expr = rng.choice(paths)
+            if 'q:Q' in json.dumps(expr) or 'ns:Q' in json.dumps(expr):
+                binding = rng.choice(BINDINGS[2:])
+            tree, (lib, mode) = rng.choice(docs)
+            steps.append({'history': h, 'step': k, 'tree': tree, 'pre': [], 'post': [], 'lib': lib, 'mode': mode,
+                          'ns': dict(binding), 'path_expr': expr, 'version': rng.choice(versions),
+                          'api': rng.choice(['select', 'select', 'iter_select', 'Selector']),
+                          'expr': subst_codes(expr, {'P': URI2CODE[binding['p']], 'Q': URI2CODE.get(binding.get('q', ''), 'Q')})})
+    builts, lines = [], []
+    for c in steps:
+        b = Built(c['tree'], c['pre'], c['post'], c['lib'], c['mode'], c['ns'])
+        builts.append(b)
+        rootctx = 1 if b.mode == 'dummy' else 0
+        lines.append(f"M={c['mode']} T={b.tree_field()} X={'~'.join(b.xtoks)} E={'~'.join(polish(c['expr']))} C={rootctx}")
+    answers = drive(run, lines)
+    prior: dict[int, list] = {}
+    for c, b, ans in zip(steps, builts, answers):
+        path = render(c['path_expr'])
+        cj = {'history': c['history'], 'step': c['step'], 'tree': c['tree'], 'lib': c['lib'], 'mode': c['mode'],
+              'namespaces': c['ns'], 'xpath': path, 'parser': c['version'], 'api': c['api'],
+              'prior_calls_in_this_process': list(prior.get(c['history'], []))[-6:]}
+        prior.setdefault(c['history'], []).append([c['api'], path, c['ns'], c['version']])
+        if not ans.startswith('wf=1 fl=1 ty=path R='):
+            run.disagree(Disagreement(cj, 'driver:' + ans[:80], what='protocol-history'))
+            continue
+        _, mv, sv, k = ans.split(' R=')[1].split(':')
+        ids = parse_idx(sv)
+        it = ImplTree(b)
+        v = c['version']
+        want = [it.label(j, v) for j in ids if not (b.mode == 'dummy' and j == 0)]
+        try:
+            if c['api'] == 'select':
+                r = elementpath.select(it.raw, path, namespaces=dict(c['ns']), parser=P[v], fragment=it.frag)
+            elif c['api'] == 'iter_select':
+                r = list(elementpath.iter_select(it.raw, path, namespaces=dict(c['ns']), parser=P[v], fragment=it.frag))
+            else:
+                r = elementpath.Selector(path, namespaces=dict(c['ns']), parser=P[v]).select(
+                    it.raw, fragment=it.frag, namespaces=dict(c['ns']))
+            got = it.public_labels(r, v)
+        except Exception as e:
+            got = err_code(e)
+        st.count('history-step-checked')
+        st.case(['history', c['lib'], c['mode'], path, json.dumps(c['ns'], sort_keys=True), b.tree_field()], nontrivial=bool(ids))
+        if got != want:
+            tags = (['F01b'] if int(k) & 1 else []) + (['F01c'] if int(k) & 2 else []) + (['F01i'] if int(k) & 4 else [])
+            run.disagree(Disagreement(cj, str(got)[:300], mv, str(want)[:300], what='public-api-call-history',
+                                      site='xpath_selectors.py select / iter_select / Selector', tags=tags))
 
 
 # ===================================================================== corpus
@@ -887,8 +1185,26 @@ CORPUS_EXPR = [
 ]
 
 
+# seeded change m2: <d:a xmlns="urn:d" xmlns:p=…> whose child declares an extra prefix while its tag uses the default namespace
+T5 = ['E', 'D', 'a', [['', 'j', 'w0']], [
+    ['E', 'D', 'a', [['', 'k', 'w1'], ['Q', 'j', 'w2']], [['T', 'u1'], ['E', 'D', 'b', [], [], {}], ['T', 'u2']], {'q': 'Q'}],
+    ['E', 'P', 'x', [['', 'k', 'w3']], [['E', '', 'y', [['', 'k', 'w4']], [['T', 'u3']], {}]], {'q': 'Q', 'p': 'P'}],
+], {'': 'D'}]
+CORPUS_DEEP = [
+    ['sl', ['dr', S('attribute', 'any', True)], S('ancestor-or-self', 'node')],                    # //@*/ancestor-or-self::node()
+    ['un', ['sl', ['dr', S('child', 'q:D:a', True)], S('attribute', 'any', True)],
+           ['sl', ['dr', S('child', 'q:D:a', True)], S('child', 'node', True)]],                   # //d:a/@* | //d:a/node()
+    ['un', ['dr', S('attribute', 'any', True)], ['dr', S('child', 'text', True)]],                 # //@* | //text()
+    ['un', ['dr', S('namespace', 'any')], ['dr', S('child', 'node', True)]],
+    ['sl', ['dr', S('namespace', 'any')], S('ancestor-or-self', 'node')],
+]
+
+
 def corpus_cases():
     out = []
+    for expr in CORPUS_DEEP:
+        for mode in ('doc', 'dummy', 'frag'):
+            out.append({'tree': T5, 'pre': [], 'post': [], 'expr': expr, 'lib': 'lxml', 'mode': mode, 'ns': dict(NS_EXT)})
     post = [['C', 'cz'], ['P', 'pj', 'dz']]
     pre = [['C', 'ca']]
     for tree, expr in CORPUS_EXPR:
@@ -908,14 +1224,28 @@ def correspond(run: Run) -> None:
     cases = corpus_cases()
     for t in range(ntrees):
         big = (not run.quick) and rng.random() < 0.3
-        tree, pre, post = gen_tree(rng, max_depth=9 if big else 6, max_elems=16 if big else 9)
+        deep = t % 6 == 5          # lxml only: namespace declarations at depth
+        if deep:
+            tree, pre, post = gen_tree_deep(rng, max_depth=6 if big else 5, max_elems=12 if big else 8)
+            _TEST_CODES[:] = ['P', 'Q', 'D', 'D']
+        else:
+            tree, pre, post = gen_tree(rng, max_depth=9 if big else 6, max_elems=16 if big else 9)
+            _TEST_CODES[:] = ['P']
         for k in range(per_tree):
             lib, mode = COMBOS[(t + k) % len(COMBOS)]
+            if deep:
+                lib = 'lxml'
             expr = gen_path(rng, rng.choice([1, 1, 2, 2, 3, 3, 4]), depth=2)
             if rng.random() < 0.07:
                 expr = gen_union(rng, 1)
-            cases.append({'tree': tree, 'pre': pre, 'post': post, 'expr': expr, 'lib': lib, 'mode': mode,
-                          'ctxseed': rng.randrange(1 << 30)})
+            if rng.random() < (0.45 if deep else 0.04):
+                expr = gen_mix(rng)
+            case = {'tree': tree, 'pre': pre, 'post': post, 'expr': expr, 'lib': lib, 'mode': mode,
+                    'ctxseed': rng.randrange(1 << 30)}
+            if deep:
+                case['ns'] = dict(NS_EXT)
+            cases.append(case)
+    _TEST_CODES[:] = ['P']
     run.stats.rule = ('(tree, expression, root form, library, context item): trees from a grammar biased to nested same-name '
                       'elements (names x,y,a; depth<=6 quick/9 thorough; 0-3 attributes; namespace nodes xml+p; text, tail, '
                       'comments, PIs; lxml document-level siblings) x path expressions (1-4 steps, 13 axes, name/kind tests, '
@@ -930,6 +1260,7 @@ def correspond(run: Run) -> None:
             seen.add(k)
             sample.append(c)
     state_correspond(run, sample[:run.scale(60, 400)])
+    history_correspond(run)
     chunk = 400
     for i in range(0, len(cases), chunk):
         compare(run, cases[i:i + chunk])
@@ -993,7 +1324,14 @@ def search_exprs():
     tests = ['any', 'q::x', 'q::y', 'node']
     steps = [S(ax, t) for ax in AXES if ax not in ('attribute', 'namespace') for t in tests]
     steps += [S('attribute', 'any'), S('attribute', 'q::k'), S('namespace', 'any'), S('child', 'text'), ['u'], ['c']]
-    preds = [['n', 1], ['n', 2], ['last'], ['cmp', 'gt', ['pos'], ['n', 1]], S('child', 'any', True), ['not', S('child', 'q::x', True)]]
+    cx, cy, ak = S('child', 'q::x', True), S('child', 'q::y', True), S('attribute', 'q::k', True)
+    bools = []
+    for op in ('and', 'or'):
+        for l, r in ((cx, cy), (['not', cx], cy), (cy, ['not', cx]), (['not', cx], ['not', cy]), (['not', ak], cx),
+                     (['cmp', 'gt', ['count', cx], ['n', 0]], cy), (['not', ['u']], cx), (['not', S('child', 'any', True)], ak)):
+            bools.append([op, l, r])
+    preds = [['n', 1], ['n', 2], ['last'], ['cmp', 'gt', ['pos'], ['n', 1]], S('child', 'any', True),
+             ['not', S('child', 'q::x', True)]] + bools
     one = list(steps) + [['p', s, p] for s in steps if s[0] == 's' for p in preds] + \
         [['p', ['p', s, preds[3]], preds[0]] for s in steps if s[0] == 's' and s[2] == 'any']
     for s in one:
